@@ -508,8 +508,9 @@ func (in *Interp) atomicLoad(p *Ptr) Value {
 	c := in.atomicCell(p)
 	in.visible("atomic.load")
 	in.hbAcquire(&c.atomicVC)
-	in.noteSpinRead(c)
-	return c.v
+	v := c.v
+	in.noteAtomicLoad(c)
+	return v
 }
 
 func (in *Interp) atomicStore(p *Ptr, v Value) {
@@ -517,6 +518,7 @@ func (in *Interp) atomicStore(p *Ptr, v Value) {
 	in.visible("atomic.store")
 	in.hbRelease(&c.atomicVC)
 	c.v = v
+	in.noteAtomicWrite(c)
 	in.noteProgress()
 }
 
@@ -527,6 +529,7 @@ func (in *Interp) atomicSwap(p *Ptr, v Value) Value {
 	in.hbRelease(&c.atomicVC)
 	old := c.v
 	c.v = v
+	in.noteAtomicWrite(c)
 	in.noteProgress()
 	return old
 }
@@ -539,6 +542,7 @@ func (in *Interp) atomicCAS(p *Ptr, old, nw Value) Value {
 	if in.branch(eq, "cas") {
 		in.hbRelease(&c.atomicVC)
 		c.v = nw
+		in.noteAtomicWrite(c)
 		in.noteProgress()
 		return in.tb.True()
 	}
@@ -553,6 +557,7 @@ func (in *Interp) atomicRMW(p *Ptr, f func(*Term) *Term, retNew bool) Value {
 	old := c.v.(*Term)
 	nw := f(old)
 	c.v = nw
+	in.noteAtomicWrite(c)
 	in.noteProgress()
 	if retNew {
 		return nw
@@ -560,7 +565,6 @@ func (in *Interp) atomicRMW(p *Ptr, f func(*Term) *Term, retNew bool) Value {
 	return old
 }
 
-func (in *Interp) noteSpinRead(c *Cell) {}
 func (in *Interp) noteProgress() {
 	for _, t := range in.threads {
 		t.yields = 0
@@ -885,6 +889,14 @@ func iterPull(in *Interp, caller *frame, fn *ssa.Function, args []Value) Value {
 // ---------- harness runtime ("zz_verif_rt.go") ----------
 
 func (in *Interp) nondet(name string, w int, kind string) *Term {
+	if rv := in.run.replayVals; rv != nil {
+		i := in.nondetN
+		in.nondetN++
+		if i < len(rv) {
+			return in.tb.Const(w, rv[i].Val)
+		}
+		return in.tb.Const(w, 0)
+	}
 	in.nondetN++
 	vn := fmt.Sprintf("n%d_%s", in.nondetN, sanitize(name))
 	t := in.tb.Var(vn, w)
@@ -954,6 +966,14 @@ func registerRT() {
 	}
 	rtIntrinsics["vRunGoroutines"] = func(in *Interp, c *frame, fn *ssa.Function, a []Value) Value {
 		in.runParked()
+		return nil
+	}
+	// vAtomic(f): runs f without scheduling points (a ghost observer taking an atomic snapshot)
+	rtIntrinsics["vAtomic"] = func(in *Interp, c *frame, fn *ssa.Function, a []Value) Value {
+		saved, savedRace := in.par, in.raceOn
+		in.par, in.raceOn = false, false
+		defer func() { in.par, in.raceOn = saved, savedRace }()
+		in.call(c, token.NoPos, a[0], nil)
 		return nil
 	}
 	rtIntrinsics["vYield"] = func(in *Interp, c *frame, fn *ssa.Function, a []Value) Value {
